@@ -427,6 +427,17 @@ func (m *Monitors) PostTimeout(n *Node, pre *deliveryCtx, h, v uint64, effects [
 	m.sample(n)
 }
 
+// OnRecoveredPanic: the worker recovered from a panic while handling the message being delivered.
+// Dropping bytes the reference decoder cannot read either is the intended behaviour; a panic while
+// handling a message that decodes completely is a defect in the handling code.
+func (m *Monitors) OnRecoveredPanic(n *Node, r interface{}) {
+	if m.cur != nil && m.cur.f != nil && m.cur.f.Msg != nil {
+		m.violate("C12", "panic-while-handling-well-formed-message:"+panicClass(fmt.Sprint(r)), "node %s panicked (recovered by the worker) while handling %s: %v", n.Id, Describe(m.cur.f), r)
+		return
+	}
+	m.Stats["C12 malformed messages dropped after a parser panic"]++
+}
+
 func (m *Monitors) OnPanic(n *Node, what string, r interface{}) {
 	m.violate("C12", "panic:"+panicClass(fmt.Sprint(r)), "node %s panicked in %s: %v", n.Id, what, r)
 }
@@ -512,9 +523,7 @@ func (m *Monitors) onCommit(n *Node, nm *nodeMon, e *spi.Event) {
 	if int64(e.H) <= nm.lastCommitH {
 		m.violate("C13", "commit-height-not-increasing", "node %s commit callback for height %d after %d", n.Id, e.H, nm.lastCommitH)
 	}
-	if e.Ok {
-		nm.lastCommitH = int64(e.H)
-	}
+	nm.lastCommitH = int64(e.H) // also when the callback fails: the same height must not be passed to it again
 	// C01
 	if old, ok := m.decided[e.H]; ok {
 		if old != e.Hash {
